@@ -105,8 +105,9 @@ func init() {
 		Rule:   "cases = every transition from every reachable state with <= 4 seats (thorough 5) + rapid histories; at every Next(): button = first seat able to play clockwise after the old dealer, refusal exactly with the insufficient-players error; non-trivial = Next() where the old dealer can no longer play or an occupied non-playable seat lies between old and new dealer",
 		Stages: []stage{reach, hist(600000, 15000000)}}
 	plans["C18"] = plan{Level: "exploration", Assume: append([]string{"the goroutine schedule of the race stage is not owned by the harness (stress + race detector)"}, seatAssume...),
-		Rule:   "cases = every transition from every reachable state with <= 4 seats (thorough 5) + rapid histories with out-of-range ids (occupancy model, recover() around every call) + concurrent-join cases under the race detector (drawn table size, 2..32 goroutines, specific/any targets, pre-seated players); non-trivial = history with a failed join and a leave; race case with more goroutines than free seats",
-		Stages: []stage{reach, hist(600000, 15000000), {Name: "join-race", Harness: "seats", Test: "TestJoinRace", Mode: "race", Race: true, Quick: 6000, Thorough: 150000}}}
+		Rule:   "cases = every transition from every reachable state with <= 4 seats (thorough 5) + rapid histories with out-of-range ids (occupancy model, recover() around every call) + concurrent-join cases under the race detector (drawn table size, 2..32 goroutines, specific/any targets, pre-seated players) + join/leave/sit-in/sit-out histories with out-of-range ids, optionally followed by racing joins, on table.Table and match.Table (what these tables publish against the occupancy model, under the race detector); non-trivial = history with a failed join and a leave; race case with more goroutines than free seats",
+		Stages: []stage{reach, hist(600000, 15000000), {Name: "join-race", Harness: "seats", Test: "TestJoinRace", Mode: "race", Race: true, Quick: 6000, Thorough: 150000},
+			{Name: "table-glue", Harness: "seats", Test: "TestGlueOccupancy", Mode: "race", Race: true, Quick: 20000, Thorough: 500000}}}
 
 	mttAssume := []string{
 		"tables follow the regulator's instructions: new players are seated, exactly the requested number of players is released through ReleasePlayers, a broken table hands everybody back (what the repository's own tests do)",
